@@ -138,9 +138,41 @@ theorem C19_witness_overflow :
     holdsValExec ⟨20, 2, 2^62, true⟩ 100 (durNs ⟨20, 2, 2^62, true⟩ 100) = false ∧
     knownOverflow ⟨20, 2, 2^62, true⟩ = true := by decide
 
+private theorem run_dur_replicate (cfg : Cfg) (k : Nat) : ∀ a : Nat,
+    (run ⟨cfg, a⟩ (List.replicate k .dur)).2 = (List.range' a k).map (durNs cfg) := by
+  induction k with
+  | zero => intro a; rfl
+  | succ k ih =>
+    intro a
+    simp only [List.replicate_succ, run, step, List.range'_succ, List.map_cons]
+    rw [ih (a + 1)]
+
+/-- **The reconnection loop of the StreamManager**: after the n-th consecutive failed attempt (n = 0, 1, …) of one
+connection loss the wait is drawn below min(3 min, 20 ms · 2^n): the bounds of the first k waits are exactly these
+values, in this order - so they never exceed the cap and never decrease. -/
+theorem C19_supervisor (k : Nat) :
+    supervisorBounds k = (List.range k).map (fun n => ((min 180000 (20 * 2 ^ n) : Nat) : Int) * 1000000) := by
+  unfold supervisorBounds
+  rw [run_dur_replicate, List.range_eq_range']
+  apply List.map_congr_left
+  intro n _
+  have hc : (setDefault supervisorCfg).cap ≤ 9223372036854 := by decide
+  rw [C19_ns_exact supervisorCfg n hc]
+  rfl
+
+theorem C19_supervisor_bounded_mono (k i j : Nat) (hij : i ≤ j) (hj : j < k) :
+    (supervisorBounds k)[i]! ≤ (supervisorBounds k)[j]! ∧ (supervisorBounds k)[j]! ≤ 180000 * 1000000 := by
+  rw [C19_supervisor]
+  have hi : i < k := by omega
+  simp only [List.getElem!_eq_getElem?_getD, List.getElem?_map, List.getElem?_range hi, List.getElem?_range hj,
+    Option.map_some, Option.getD_some]
+  have hp : 2 ^ i ≤ 2 ^ j := Nat.pow_le_pow_right (by omega) hij
+  constructor <;> omega
+
 -- non-vacuity: the defaults satisfy every hypothesis, and the values are the expected ones
 example : (setDefault ⟨0, 0, 0, true⟩).cap ≤ 9223372036854 := by decide
 example : specMs ⟨0, 0, 0, true⟩ 0 = 20 ∧ specMs ⟨0, 0, 0, true⟩ 5 = 640 ∧ specMs ⟨0, 0, 0, true⟩ 14 = 180000 := by decide
+example : supervisorBounds 4 = [20000000, 40000000, 80000000, 160000000] := by decide
 example : (run ⟨⟨0,0,0,true⟩, 0⟩ [.dur, .dur, .durFor 5, .reset, .dur]).2 = [20000000, 40000000, 640000000, 0, 20000000] := by decide
 
 end XmppVerif.Props.C19
@@ -155,3 +187,5 @@ end XmppVerif.Props.C19
 #print axioms XmppVerif.Props.C19.C19_exec_oracle_eq
 #print axioms XmppVerif.Props.C19.C19_history
 #print axioms XmppVerif.Props.C19.C19_witness_overflow
+#print axioms XmppVerif.Props.C19.C19_supervisor
+#print axioms XmppVerif.Props.C19.C19_supervisor_bounded_mono
